@@ -552,7 +552,7 @@ func workers() int {
 	if w := envInt("GOVC_WORKERS", 0); w > 0 {
 		return w
 	}
-	n := runtime.NumCPU() / 2
+	n := runtime.NumCPU() / 3
 	if n < 2 {
 		n = 2
 	}
